@@ -11,7 +11,8 @@ sys.path.insert(0, os.path.join(vlib.VERIF, 'tools'))
 import gen_c01_prog as G
 
 LEVEL = 'proof'
-ENGINES = 'i,g0,g2'
+# interp + the two non-optimising generator levels: -O2/-O3 specific defects are C01's business
+ENGINES = 'i,g0,g1'
 BUILDS = [
     ('default', []),
     ('noinline', ['-DMIR_MAX_INSNS_FOR_INLINE=0', '-DMIR_MAX_INSNS_FOR_CALL_INLINE=0']),
@@ -62,7 +63,7 @@ def run(chk):
         total_div += ndiv
     chk.cov['rule'] = ('seeded well-defined multi-function MIR programs (calls/inlines in chains and recursively, allocas '
                       'in caller and callee, block args, multiple results/returns, narrow types) run as written by the '
-                      'extracted Coq reference interpreter and, after MIR_link, by MIR_interp and MIR_gen -O0/-O2 with the '
+                      'extracted Coq reference interpreter and, after MIR_link, by MIR_interp and MIR_gen -O0/-O1 with the '
                       'library built with default / zero / huge inlining thresholds; an evaluation = one (program, library '
                       'build, engine) triple; distinct by program text')
     for p in progs[:2]:
